@@ -643,6 +643,9 @@ class TermBuilder:
         if len(empty) == 1 and all(len(k) == 1 for i, k in enumerate(keyed) if i != empty[0]):
             # one unconditional definition overridden inside if-branches: it survives where none of them ran
             keyed[empty[0]] = tuple(neg_test(k[0]) for i, k in enumerate(keyed) if i != empty[0])
+        elif len(empty) == 1 and all(keyed[i] for i in range(len(keyed)) if i != empty[0]):
+            # ... overridden under compound conditions: it survives 'otherwise' (the complement is not a conjunction of literals)
+            keyed[empty[0]] = (("otherwise", tuple(sorted((repr(k) for i, k in enumerate(keyed) if i != empty[0])))),)
         if any(not k for k in keyed) or len(set(keyed)) != len(keyed):
             return None
         return ("gphi", frozenset((k, self.def_term(d)) for k, d in zip(keyed, defs)))
